@@ -3,7 +3,7 @@
    ExtrOcamlNativeString: [byte] -> OCaml [char] (256 constructors, listed in the stock file),
    [string] -> OCaml [string]. N/Z/positive/nat stay Coq's inductive types. *)
 From Coq Require Import Extraction ExtrOcamlBasic ExtrOcamlNativeString.
-From NfpmV Require Import Lib.Bytes Model.Path Model.Content Model.Prepare Model.Payload Model.Meta Model.Version Model.VerCmp Spec.C14 Spec.C05 Spec.C01 Spec.C08 Spec.C09 Spec.C03 Spec.C04 Spec.C02.
+From NfpmV Require Import Lib.Bytes Model.Path Model.Content Model.Prepare Model.Payload Model.Meta Model.Version Model.VerCmp Model.Cli Spec.C14 Spec.C15 Spec.C05 Spec.C01 Spec.C08 Spec.C09 Spec.C03 Spec.C04 Spec.C02.
 From NfpmV Require Import Gen.ArchTables.
 From NfpmV Require Import Gen.FsPaths.
 Extraction Language OCaml.
@@ -18,4 +18,5 @@ Extraction "model.ml"
   check_C03 check_C04 check_names
   deb_control ipk_control apk_pkginfo arch_pkginfo rpm_meta check_C02 c02_clause_text arch_prerelease_dropped
   arch_deb arch_rpm arch_apk arch_ipk arch_archlinux arch_doc gs
-  split_version semver_parse dpkg_cmp rpm_cmp check_split check_order_dpkg check_order_rpm.
+  split_version semver_parse dpkg_cmp rpm_cmp check_split check_order_dpkg check_order_rpm
+  cli_plan check_cli check_filename expected_filename model_filename.
